@@ -217,6 +217,7 @@ class Check:
         # evidence is only rewritten for runs against the real /repo
         if os.environ.get("OQV_NO_EVIDENCE") == "1":
             return
-        os.makedirs(os.path.join(VERIF, "evidence"), exist_ok=True)
-        with open(os.path.join(VERIF, "evidence", f"{self.pid}.json"), "w") as fh:
+        edir = os.environ.get("OQV_EVIDENCE_DIR") or os.path.join(VERIF, "evidence")
+        os.makedirs(edir, exist_ok=True)
+        with open(os.path.join(edir, f"{self.pid}.json"), "w") as fh:
             json.dump(ev, fh, indent=1, sort_keys=False)
